@@ -168,19 +168,28 @@ theorem pull_spec (active : Bool) (raw : List (Item N)) (st : IterSt N) : PullSp
           · obtain ⟨V', hV', hs2, _, _⟩ := i4 ha V1 hV1
             exact Or.inr (Or.inr (Or.inr ⟨ha, V', n, hV', hc, nodesJ_mono hs2 hn⟩))
         · exact i8 hacc3 hle2 x hx
-    -- now the definition
-    cases hact : (if active then st.vis else none) with
-    | none =>
-      have hnv : active = false ∨ st.vis = none := by
-        cases active with
-        | false => exact Or.inl rfl
-        | true => simp at hact; exact Or.inr hact
-      have hstay : ∀ (st1 : IterSt N), st1.vis = st.vis →
-          (active = true → ∀ V, st.vis = some V → ∃ V1, st1.vis = some V1 ∧ SubVis V V1 ∧ ∀ m ∈ nodesJ V1, m ∈ nodesJ V) := by
-        intro st1 h1 _ V hV
-        exact ⟨V, by rw [h1, hV], SubVis.refl V, fun _ hm => hm⟩
-      cases hc : it.cond with
-      | tt =>
+    -- now the definition: the condition filter first, then the visited filter
+    have hstay : ∀ (st1 : IterSt N), st1.vis = st.vis →
+        (active = true → ∀ V, st.vis = some V → ∃ V1, st1.vis = some V1 ∧ SubVis V V1 ∧ ∀ m ∈ nodesJ V1, m ∈ nodesJ V) := by
+      intro st1 h1 _ V hV
+      exact ⟨V, by rw [h1, hV], SubVis.refl V, fun _ hm => hm⟩
+    cases hc : it.cond with
+    | ff =>
+      exact cont st (by simp [pull, hc]) ⟨[], by simp, by simp⟩ id (fun _ => rfl) (hstay st rfl)
+        (fun _ _ => Or.inl hc)
+    | err =>
+      exact cont { st with lastErr := true } (by simp [pull, hc]) ⟨[], by simp, by simp⟩ (fun _ => rfl)
+        (fun _ => rfl) (hstay _ rfl) (fun _ h => by simp at h)
+    | errSw =>
+      exact cont { st with lastErr := true } (by simp [pull, hc]) ⟨[], by simp, by simp⟩ (fun _ => rfl)
+        (fun _ => rfl) (hstay _ rfl) (fun _ h => by simp at h)
+    | tt =>
+      cases hact : (if active then st.vis else none) with
+      | none =>
+        have hnv : active = false ∨ st.vis = none := by
+          cases active with
+          | false => exact Or.inl rfl
+          | true => simp at hact; exact Or.inr hact
         have heq : pull active (it :: rest) st = (some it.child, rest, { st with onceValid := true }) := by
           simp [pull, hact, hc]
         unfold PullSpec
@@ -196,73 +205,53 @@ theorem pull_spec (active : Bool) (raw : List (Item N)) (st : IterSt N) : PullSp
           rcases List.mem_cons.mp hx with rfl | hx
           · exact Or.inr (Or.inl ⟨rfl, hc⟩)
           · exact Or.inl hx
-      | ff =>
-        exact cont st (by simp [pull, hact, hc]) ⟨[], by simp, by simp⟩ id (fun _ => rfl) (hstay st rfl)
-          (fun _ _ => Or.inl hc)
-      | err =>
-        exact cont { st with lastErr := true } (by simp [pull, hact, hc]) ⟨[], by simp, by simp⟩ (fun _ => rfl)
-          (fun _ => rfl) (hstay _ rfl) (fun _ h => by simp at h)
-      | errSw =>
-        exact cont { st with lastErr := true } (by simp [pull, hact, hc]) ⟨[], by simp, by simp⟩ (fun _ => rfl)
-          (fun _ => rfl) (hstay _ rfl) (fun _ h => by simp at h)
-    | some V =>
-      have hav : active = true ∧ st.vis = some V := by
-        cases active with
-        | false => simp at hact
-        | true => simp at hact; exact ⟨rfl, hact⟩
-      have hno : ¬ (active = false ∨ st.vis = none) := by
-        rintro (h | h)
-        · rw [h] at hav; cases hav.1
-        · rw [h] at hav; cases hav.2
-      cases hf : V.find? (fun e => e.1 = it.key) with
-      | some e =>
-        by_cases hbad : (!(e.2.2 && decide (it.child = some e.2.1))) = true
-        · refine cont { st with acc := st.acc ++ [[.ok false true]] } (by simp [pull, hact, hf, hbad])
-            ⟨[[.ok false true]], rfl, by simp⟩ id (fun _ => rfl) ?_ ?_
-          · intro _ V0 hV0; exact ⟨V0, hV0, SubVis.refl V0, fun _ hm => hm⟩
-          · intro h; simp at h
-        · refine cont st (by simp [pull, hact, hf, hbad]) ⟨[], by simp, by simp⟩ id (fun _ => rfl) ?_ ?_
-          · intro _ V0 hV0; exact ⟨V0, hV0, SubVis.refl V0, fun _ hm => hm⟩
-          · intro _ _
-            have hb2 : e.2.2 = true ∧ it.child = some e.2.1 := by simpa using hbad
-            refine Or.inr ⟨hav.1, V, e.2.1, hav.2, hb2.2, ?_⟩
-            have hm : e ∈ V := List.mem_of_find?_eq_some hf
-            refine mem_nodesJ.mpr ⟨e.1, ?_⟩
-            have : e = (e.1, e.2.1, true) := by
-              rcases e with ⟨k, n, j⟩
-              simp at hb2 ⊢
-              exact hb2.1
-            rw [← this]; exact hm
-      | none =>
-        -- the new visited set
-        obtain ⟨V', hV'⟩ : ∃ V', V' = mark it V := ⟨_, rfl⟩
-        have hsub : SubVis V V' := by
-          subst hV'; unfold mark
-          cases it.child with
-          | none => exact SubVis.refl V
-          | some n => exact fun x hx => List.mem_cons_of_mem _ hx
-        have hnew : ∀ m ∈ nodesJ V', m ∈ nodesJ V ∨ (it.cond = .tt ∧ it.child = some m) := by
-          intro m hm
-          obtain ⟨k, hk⟩ := mem_nodesJ.mp hm
-          subst hV'; unfold mark at hk
-          cases hch : it.child with
-          | none => rw [hch] at hk; exact Or.inl (mem_nodesJ.mpr ⟨k, hk⟩)
-          | some n =>
-            rw [hch] at hk
-            rcases List.mem_cons.mp hk with h | h
-            · simp at h; exact Or.inr ⟨h.2.2, by rw [h.2.1]⟩
-            · exact Or.inl (mem_nodesJ.mpr ⟨k, h⟩)
-        have hvs : ∀ (st1 : IterSt N), st1.vis = some V' → it.cond ≠ .tt →
-            (active = true → ∀ V0, st.vis = some V0 → ∃ V1, st1.vis = some V1 ∧ SubVis V0 V1 ∧ ∀ m ∈ nodesJ V1, m ∈ nodesJ V0) := by
-          intro st1 h1 hne _ V0 hV0
-          rw [hav.2] at hV0; cases hV0
-          refine ⟨V', h1, hsub, ?_⟩
-          intro m hm
-          rcases hnew m hm with h | ⟨h, _⟩
-          · exact h
-          · exact absurd h hne
-        cases hc : it.cond with
-        | tt =>
+      | some V =>
+        have hav : active = true ∧ st.vis = some V := by
+          cases active with
+          | false => simp at hact
+          | true => simp at hact; exact ⟨rfl, hact⟩
+        have hno : ¬ (active = false ∨ st.vis = none) := by
+          rintro (h | h)
+          · rw [h] at hav; cases hav.1
+          · rw [h] at hav; cases hav.2
+        cases hf : V.find? (fun e => e.1 = it.key) with
+        | some e =>
+          by_cases hbad : (!(e.2.2 && decide (it.child = some e.2.1))) = true
+          · refine cont { st with acc := st.acc ++ [[.ok false true]] } (by simp [pull, hact, hf, hbad, hc])
+              ⟨[[.ok false true]], rfl, by simp⟩ id (fun _ => rfl) ?_ ?_
+            · intro _ V0 hV0; exact ⟨V0, hV0, SubVis.refl V0, fun _ hm => hm⟩
+            · intro h; simp at h
+          · refine cont st (by simp [pull, hact, hf, hbad, hc]) ⟨[], by simp, by simp⟩ id (fun _ => rfl) ?_ ?_
+            · intro _ V0 hV0; exact ⟨V0, hV0, SubVis.refl V0, fun _ hm => hm⟩
+            · intro _ _
+              have hb2 : e.2.2 = true ∧ it.child = some e.2.1 := by simpa using hbad
+              refine Or.inr ⟨hav.1, V, e.2.1, hav.2, hb2.2, ?_⟩
+              have hm : e ∈ V := List.mem_of_find?_eq_some hf
+              refine mem_nodesJ.mpr ⟨e.1, ?_⟩
+              have : e = (e.1, e.2.1, true) := by
+                rcases e with ⟨k, n, j⟩
+                simp at hb2 ⊢
+                exact hb2.1
+              rw [← this]; exact hm
+        | none =>
+          -- the new visited set
+          obtain ⟨V', hV'⟩ : ∃ V', V' = mark it V := ⟨_, rfl⟩
+          have hsub : SubVis V V' := by
+            subst hV'; unfold mark
+            cases it.child with
+            | none => exact SubVis.refl V
+            | some n => exact fun x hx => List.mem_cons_of_mem _ hx
+          have hnew : ∀ m ∈ nodesJ V', m ∈ nodesJ V ∨ (it.cond = .tt ∧ it.child = some m) := by
+            intro m hm
+            obtain ⟨k, hk⟩ := mem_nodesJ.mp hm
+            subst hV'; unfold mark at hk
+            cases hch : it.child with
+            | none => rw [hch] at hk; exact Or.inl (mem_nodesJ.mpr ⟨k, hk⟩)
+            | some n =>
+              rw [hch] at hk
+              rcases List.mem_cons.mp hk with h | h
+              · simp at h; exact Or.inr ⟨h.2.2, by rw [h.2.1]⟩
+              · exact Or.inl (mem_nodesJ.mpr ⟨k, h⟩)
           have heq : pull active (it :: rest) st = (some it.child, rest, { st with vis := some V', onceValid := true }) := by
             simp [pull, hact, hf, hc, hV']
           unfold PullSpec
@@ -287,21 +276,6 @@ theorem pull_spec (active : Bool) (raw : List (Item N)) (st : IterSt N) : PullSp
             rcases List.mem_cons.mp hx with rfl | hx
             · exact Or.inr (Or.inl ⟨rfl, hc⟩)
             · exact Or.inl hx
-        | ff =>
-          have heq : pull active (it :: rest) st = pull active rest { st with vis := some V' } := by
-            simp [pull, hact, hf, hc, hV']
-          exact cont { st with vis := some V' } heq ⟨[], by simp, by simp⟩ id (fun h => absurd h hno)
-            (hvs _ rfl (by rw [hc]; intro h; cases h)) (fun _ _ => Or.inl hc)
-        | err =>
-          have heq : pull active (it :: rest) st = pull active rest { st with vis := some V', lastErr := true } := by
-            simp [pull, hact, hf, hc, hV']
-          exact cont { st with vis := some V', lastErr := true } heq ⟨[], by simp, by simp⟩ (fun _ => rfl)
-            (fun h => absurd h hno) (hvs _ rfl (by rw [hc]; intro h; cases h)) (fun _ h => by simp at h)
-        | errSw =>
-          have heq : pull active (it :: rest) st = pull active rest { st with vis := some V', lastErr := true } := by
-            simp [pull, hact, hf, hc, hV']
-          exact cont { st with vis := some V', lastErr := true } heq ⟨[], by simp, by simp⟩ (fun _ => rfl)
-            (fun h => absurd h hno) (hvs _ rfl (by rw [hc]; intro h; cases h)) (fun _ h => by simp at h)
 
 /-! ### the producer/consumer loop -/
 
